@@ -60,6 +60,9 @@ def extra_qasm_gates(cirq, rng, k):
             cirq.ControlledGate(cirq.Y), cirq.ControlledGate(cirq.H), cirq.ControlledGate(cirq.Z**t), cirq.cphase(rng.uniform(-3, 3)),
             cirq.IdentityGate(2), cirq.FSimGate(rng.uniform(-3, 3), rng.uniform(-3, 3)), cirq.ControlledGate(cirq.rz(rng.uniform(-3, 3))),
             cirq.ControlledGate(cirq.X, control_values=[0]),
+            # controlled Paulis / Hadamard whose global shift becomes a relative phase under control
+            cirq.ControlledGate(rng.choice([cirq.XPowGate, cirq.YPowGate, cirq.ZPowGate, cirq.HPowGate])(exponent=1, global_shift=rng.choice([-0.5, 0.5, 0.25, 1]))),
+            cirq.ControlledGate(rng.choice([cirq.rx, cirq.ry, cirq.rz])(math.pi)),
         ])
     return rng.choice([cirq.CCX, cirq.CCZ, cirq.CSWAP, cirq.CCX**t, cirq.CCZ**t, cirq.ControlledGate(cirq.CZ**t), cirq.IdentityGate(3)])
 
@@ -106,6 +109,12 @@ def measured_circuit(cirq, rng):
             count = sum(1 for o in ops if cirq.is_measurement(o) and key in cirq.measurement_key_names(o))
             index = rng.choice([-1, -1, -1, 0, count - 1])
             base = rng.choice([cirq.X, cirq.Z, cirq.H, cirq.X**0.5, cirq.Y**0.3]).on(rng.choice(qs))
+            if rng.random() < 0.35:
+                # sub-operations whose QASM form takes several statements: all of them are conditional
+                kk = min(rng.choice([1, 2, 3]), n)
+                multi = {1: [cirq.H**0.5, cirq.PhasedXPowGate(phase_exponent=0.3, exponent=0.4), cirq.H**-0.25],
+                         2: [cirq.CZ**0.5, cirq.ISWAP, cirq.SWAP**0.5, cirq.ZZ**0.3, cirq.IdentityGate(2)], 3: [cirq.CCZ, cirq.CCX**0.5, cirq.CSWAP]}[kk]
+                base = rng.choice(multi).on(*rng.sample(qs, kk))
             if rng.random() < 0.35 and ' ' not in key:
                 import sympy
 
